@@ -177,6 +177,8 @@ func seeds() []seed {
 		{"SeedBad5", []interface{}{SeedBad5{A: 1}}, nil},
 		{"SeedArrField", []interface{}{SeedArrField{A: [3]int8{1, 2, 3}}, [2]string{"a", "b"}, &[1]int{1}}, nil},
 		{"SeedNamedFields", []interface{}{SeedNamedFields{}, SeedNamedFields{M: SeedMyMap{"a": 1}, S: SeedMySlice{"x"}, I: seedImpl{2}, N: "n"}, SeedNamedFields{M: SeedMyMap{}, S: SeedMySlice{}}}, nil},
+		{"SeedTags", []interface{}{gen.SeedTags{"a", "b"}, gen.SeedTags(nil), []gen.SeedTags{{"x"}, nil}, map[string]gen.SeedTags{"k": {"y"}}, struct{ T gen.SeedTags }{gen.SeedTags{"a", "b"}},
+			[]interface{}{gen.SeedTags{"i"}}, &gen.SeedCounts{"a": 1, "b": 2}, gen.SeedCounts{"a": 3}, struct{ C gen.SeedCounts }{gen.SeedCounts{"a": 4}}, []gen.SeedCounts{{"a": 5}}, map[string]interface{}{"k": gen.SeedCounts{"a": 6}}}, nil},
 		{"misc", []interface{}{nil, true, "s", 1.5, float32(0.1), uint64(1<<64 - 1), []interface{}{nil, 1, "a", []interface{}{}}, map[string]interface{}{"a": map[string]interface{}{"b": []int{1}}},
 			[]byte{1, 2}, []uint16{1, 65535}, map[string]float32{"f": 0.5}, new(int), (*int)(nil), new(interface{}), [][]string{{"a"}, nil}, map[string][]interface{}{"k": {1}}, uintptr(5), make(chan int), func() {}}, nil},
 	}
